@@ -210,6 +210,7 @@ class KeyType(StringType, prim='key'):
             'edpk': (0, 0),
             'sppk': (1, 0),
             'p2pk': (2, 1),
+            'BLpk': (3, 0),
         }
         res = curves[self.prefix][0] - curves[other.prefix][0]
         if res < 0:
@@ -218,7 +219,7 @@ class KeyType(StringType, prim='key'):
             return False
         else:
             offset = curves[self.prefix][1]
-            return self.raw[offset:] < other.raw[offset:]
+            return (self.raw[offset:], self.raw) < (other.raw[offset:], other.raw)
 
     @classmethod
     def dummy(cls, context: AbstractContext) -> 'KeyType':
